@@ -594,6 +594,85 @@ def answerViews (msg : Bytes) : String :=
     | .ub => "UB"
   s!"M={m} | R={r} | HH={hh} | HI={hi} | AT={at_} | I={answerIter msg}"
 
+
+/-! ### ground-truth transcript (C02) and seek histories (C09) -/
+
+def b01 (b : Bool) : String := if b then "1" else "0"
+
+/-- the record loop of the `truth` transcript: owned heap names, typed data, OPT via `opt_record` -/
+def truthRecords (msg : Bytes) : Nat → Reader → Array String → Array String × Option Reader
+  | 0, r, items => (items, some r)
+  | fuel + 1, r, items =>
+    match r.recordsCount with
+    | .ok n =>
+      if n == 0 then (items, some r) else
+      match r.recordHeader msg (.owned .heap) with
+      | (.ok (hn, m), r1) =>
+        let name := match hn with
+          | .owned t => toHex t
+          | _ => "-"
+        let (data, r2) : String × Reader :=
+          match RType.ofCode m.rtype with
+          | some t => let (o, r') := r1.data msg t m; (showE showRData o, r')
+          | none =>
+            if m.rtype == 41 then
+              let (o, r') := r1.optRecord m
+              (showE (fun x => s!"opt:{x.udpPayloadSize}:{x.rcodeExtension}:{x.version}:{b01 (Generated.opt_dnssec_ok x.flags)}") o, r')
+            else
+              let (o, r') := r1.dataBytes msg m
+              (showE (fun b => "raw:" ++ toHex b) o, r')
+        let items' := items.push
+          s!"R:{m.section_}:{m.offset}:{m.typeOffset}:{m.rdlen}:{name}:{m.rtype}:{m.rclass}:{m.ttl}:{data}"
+        if data.startsWith "E:" then (items', none) else truthRecords msg fuel r2 items'
+      | (.err e, _) => (items.push ("!E:" ++ showErr e), none)
+      | (.panic _, _) => (items.push "P", none)
+      | (.ub, _) => (items.push "UB", none)
+    | _ => (items.push "P", none)
+
+/-- `truth <hex>` -/
+def answerTruth (msg : Bytes) : String :=
+  let (f, s) : String × String :=
+    match Reader.new msg with
+    | .err e => ("-", "!E:" ++ showErr e)
+    | .panic _ => ("-", "P")
+    | .ub => ("-", "UB")
+    | .ok r0 =>
+      match r0.header msg with
+      | (.ok h, r1) =>
+        let w := h.flags
+        let f := s!"{b01 (Generated.flags_qr w)}:{Generated.flags_opcode w}:{b01 (Generated.flags_aa w)}:{b01 (Generated.flags_tc w)}:{b01 (Generated.flags_rd w)}:{b01 (Generated.flags_ra w)}:{Generated.flags_rcode w}"
+        let items := #[s!"H:{h.id}:{h.flags}:{h.qd}:{h.an}:{h.ns}:{h.ar}"]
+        match seqQuestions msg 2 (h.qd + 1) r1 items with
+        | (some (r2, items2), _) =>
+          match truthRecords msg (h.an + h.ns + h.ar + 1) r2 items2 with
+          | (items3, some r3) =>
+            let (o, r4) := r3.recordHeader msg .marker
+            let extra := showE (fun _ => "a-record-that-was-not-encoded") o
+            let cq := showE (fun n => s!"{n}") r4.questionsCount
+            let cr := showE (fun n => s!"{n}") r4.recordsCount
+            (f, String.intercalate ";" (items3.push s!"END:{extra}:{cq}:{cr}").toList)
+          | (items3, none) => (f, String.intercalate ";" items3.toList)
+        | (none, items2) => (f, String.intercalate ";" items2.toList)
+      | (.err e, _) => ("-", "!E:" ++ showErr e)
+      | (.panic _, _) => ("-", "P")
+      | (.ub, _) => ("-", "UB")
+  s!"F={f} | S={s} | I={answerIter msg}"
+
+/-- the op list of one linear pass, from the header counts (capped) -/
+def linearOps (msg : Bytes) : List String :=
+  let c (i : Nat) : Nat := (msg.getD i 0).toNat * 256 + (msg.getD (i + 1) 0).toNat
+  let body : List String :=
+    if msg.size ≥ 12 then
+      let qd := min (c 4) 64
+      let n := min (c 6 + c 8 + c 10) 64
+      List.replicate qd "qr" ++ (List.replicate n ["hr", "db"]).flatten
+    else []
+  ["hd"] ++ body ++ ["hr"]
+
+/-- `seekhist <hex> <op>…` -/
+def answerSeekhist (msg : Bytes) (ops : List String) : String :=
+  answerReader msg ops ++ " #L# " ++ answerReader msg (linearOps msg)
+
 /-! ### text names, encoder -/
 
 def showOrdering : Ordering → String
@@ -795,6 +874,18 @@ def answer (line : String) : String :=
   | ["views", hex] =>
     match parseHex hex with
     | some msg => answerViews msg
+    | none => "bad-request"
+  | ["truth", hex] =>
+    match parseHex hex with
+    | some msg => answerTruth msg
+    | none => "bad-request"
+  | ["truth", hex, _exp] =>
+    match parseHex hex with
+    | some msg => answerTruth msg
+    | none => "bad-request"
+  | "seekhist" :: hex :: ops =>
+    match parseHex hex with
+    | some msg => answerSeekhist msg ops
     | none => "bad-request"
   | ["rrset", ty, hex] =>
     match rtypeOfString ty, parseHex hex with
